@@ -8,6 +8,9 @@ def stepAll (st : St) (cmd : List String) (got : String) : St × Verdict :=
   match stepSer st cmd got with
   | some r => r
   | none =>
+  match stepKern st cmd got with
+  | some r => r
+  | none =>
   match step64 st cmd got with
   | some r => r
   | none =>
@@ -17,7 +20,7 @@ def stepAll (st : St) (cmd : List String) (got : String) : St × Verdict :=
 
 def pureQueries : List String :=
   ["card", "empty", "has", "min", "max", "rank", "sel", "cir", "iwi", "eq", "toarr", "toexarr", "nv", "pv", "nav", "pav",
-   "andcard", "orcard", "isect", "wf", "size", "ser", "wrfail", "trunc", "chkeq", "dump", "dig"]
+   "andcard", "orcard", "isect", "wf", "size", "ser", "wrfail", "trunc", "chkeq", "dump", "dig", "kern", "kernwf", "popcnt"]
 
 partial def loop (script go : IO.FS.Stream) (st : St) (lineNo : Nat) (fails : Nat) : IO Nat := do
   let l ← script.getLine
